@@ -464,6 +464,21 @@ end Transport
 end Mercure.C19
 
 
+namespace Mercure.C19
+open Mercure.Config in
+/-- A role's key source is a function of **that role's directives only** (`roleKeySource` takes nothing else: the
+    independence of the two roles is by construction, and is what the correspondence check probes — tokens of set A and
+    of set B on both endpoints of hubs provisioned with every combination of the two JWK Set URLs). What the function
+    says: a non-empty JWK Set URL wins over the role's literal key, whatever that key is … -/
+theorem jwks_url_wins (u : Str) (hu : u ≠ []) (k : Config.KeyClass) : Config.roleKeySource (some u) k = .jwks u := by
+  simp [Config.roleKeySource, hu]
+
+/-- … and without one the role verifies with its literal key, or with nothing when none is given. -/
+theorem no_jwks_url_uses_the_key (k : Config.KeyClass) :
+    Config.roleKeySource none k = (if k = .absent then Config.KeySource.none else .key k) := by
+  cases k <;> rfl
+end Mercure.C19
+
 #print axioms Mercure.C19.caddy_no_publisher_key_rejected
 #print axioms Mercure.C19.caddy_no_subscriber_key_rejected
 #print axioms Mercure.C19.caddy_invalid_rejected
@@ -485,6 +500,8 @@ end Mercure.C19
 #print axioms Mercure.C19.url_invalid_rejected
 #print axioms Mercure.C19.caddy_transport_selection
 #print axioms Mercure.C19.env_never_overrides_configuration
+#print axioms Mercure.C19.jwks_url_wins
+#print axioms Mercure.C19.no_jwks_url_uses_the_key
 #print axioms Mercure.C19.env_is_the_fallback
 #print axioms Mercure.C19.parseUint64_examples
 #print axioms Mercure.C19.legacy_transport_selection
